@@ -60,13 +60,15 @@ func VerifC14_Order() {
 	if vfTier() > 0 {
 		n = 3
 	}
-	t0 := vfNow()
+	// the versions were submitted during the last seconds: their timestamps lie in the
+	// past, so that a resolved version is resolved for the code under test as well
+	t0 := vfNow().Add(-10 * time.Second)
 	lbls := model.LabelSet{"alertname": "A", "instance": "i1"}
 	versions := make([]*types.Alert, n)
 	for i := range versions {
 		a := &types.Alert{}
 		a.Labels = lbls
-		a.StartsAt = t0
+		a.StartsAt = t0.Add(-time.Hour)
 		a.UpdatedAt = t0.Add(time.Duration(i+1) * time.Second) // strictly increasing submission times
 		if vfBool("resolved") {
 			a.EndsAt = a.UpdatedAt
